@@ -56,7 +56,16 @@ pub fn archs_model(a: &[String]) -> Vec<(bool, String)> {
 pub fn lossless_rel(r: &ll::Relation) -> Result<Rel, Failure> {
     let version = match r.version() {
         None => None,
-        Some((vc, v)) => Some((op_of(&vc), v.to_string())),
+        Some((vc, v)) => {
+            // the Version value must be the structured reading of the text it prints (epoch / upstream / revision)
+            let text = v.to_string();
+            if let Ok(w) = debversion::Version::from_str(&text) {
+                if (w.epoch, &w.upstream_version, &w.debian_revision) != (v.epoch, &v.upstream_version, &v.debian_revision) {
+                    return Err(Failure { assertion: "version-structure".into(), message: format!("version() of {:?} is {:?}, which prints {:?}, which debversion reads as {:?}", r.to_string(), v, text, w) });
+                }
+            }
+            Some((op_of(&vc), text))
+        }
     };
     Ok(Rel {
         name: r.name(),
@@ -231,7 +240,7 @@ impl PropImpl for C10 {
          3 versions x 3 fixed layouts x 3 contexts (5184). Non-trivial: >= 2 entries or alternatives, or a relation with >= 2 optional parts. Distinct by text hash.".into()
     }
     fn expected_labels(&self) -> Vec<&'static str> {
-        vec!["layout:L0", "layout:L1", "layout:L2", "has:substvar", "has:empty-entry", "has:alternatives", "part:archqual", "part:version", "part:epoch", "part:tilde", "part:architectures", "part:negated-architecture", "part:profiles", "part:several-profile-groups", "part:multi-term-profile-group", "op:<<", "op:<=", "op:=", "op:>=", "op:>>", "has:newline", "has:tab"]
+        vec!["layout:L0", "layout:L1", "layout:L2", "has:substvar", "has:empty-entry", "has:alternatives", "part:archqual", "part:version", "part:epoch", "part:tilde", "part:hyphen-in-upstream-version", "part:epoch+hyphen-in-upstream-version", "part:architectures", "part:negated-architecture", "part:profiles", "part:several-profile-groups", "part:multi-term-profile-group", "op:<<", "op:<=", "op:=", "op:>=", "op:>>", "has:newline", "has:tab"]
     }
     fn budget(&self, tier: Tier) -> Budget {
         Budget { cases_per_lane: if tier == Tier::Quick { 15000 } else { 60_000 }, tape_max: 500, cpu_s: 10 }
@@ -260,6 +269,8 @@ impl PropImpl for C10 {
             ctx.label_if(r.version.is_some(), "part:version");
             ctx.label_if(r.version.as_ref().map(|v| v.1.contains(':')).unwrap_or(false), "part:epoch");
             ctx.label_if(r.version.as_ref().map(|v| v.1.contains('~')).unwrap_or(false), "part:tilde");
+            ctx.label_if(r.version.as_ref().map(|v| v.1.matches('-').count() >= 2).unwrap_or(false), "part:hyphen-in-upstream-version");
+            ctx.label_if(r.version.as_ref().map(|v| v.1.matches('-').count() >= 2 && v.1.contains(':')).unwrap_or(false), "part:epoch+hyphen-in-upstream-version");
             ctx.label_if(r.archs.is_some(), "part:architectures");
             ctx.label_if(r.archs.as_ref().map(|a| a.iter().any(|x| x.0)).unwrap_or(false), "part:negated-architecture");
             ctx.label_if(!r.profiles.is_empty(), "part:profiles");
